@@ -76,7 +76,8 @@ def check_chart(ctx, chart, spec, ct, stage, lines, impl, metas):
     if vals != want_vals:
         ctx.fail("series-values", f"{ct.name} [{stage}]: values {vals[:3]}, supplied {want_vals[:3]}", case)
     if spec["kind"] not in ("xy", "bubble") and spec["series"]:
-        want = expect_cat_strings(spec)
+        d1904 = root.xpath("string(/c:chartSpace/c:date1904/@val)", namespaces=lab.NS) in ("1", "true")
+        want = expect_cat_strings(spec, d1904)
         for pl in api:
             if pl["cats"] != want:
                 ctx.fail("categories" + (":empty-label" if "" in want else ""), f"{ct.name} [{stage}]: categories {pl['cats'][:6]}, supplied {want[:6]}", case)
@@ -110,7 +111,8 @@ def check_chart(ctx, chart, spec, ct, stage, lines, impl, metas):
         ctx.fail("idx-order-not-unique", f"{ct.name} [{stage}]: c:idx {idxs} c:order {orders}", case)
     # value caches vs the Lean model
     tag = "c:yVal" if spec["kind"] in ("xy", "bubble") else "c:val"
-    for ser, (_, data) in zip(root.xpath("//c:ser", namespaces=lab.NS), spec["series"]):
+    by_order = sorted(root.xpath("//c:ser", namespaces=lab.NS), key=lambda e: int(e.find("c:order", lab.NS).get("val")))
+    for ser, (_, data) in zip(by_order, spec["series"]):
         cache = ser.find(tag + "/c:numRef/c:numCache", lab.NS)
         if cache is None:
             continue
@@ -125,6 +127,69 @@ def check_chart(ctx, chart, spec, ct, stage, lines, impl, metas):
         lines.append("c07.vals " + (",".join("n" if v is None else str(v) for v in vs) or "!"))
         impl.append(out); metas.append(case)
         ctx.case(key=lines[-1] + ct.name + stage)
+
+
+def foreign_state(ctx, rng, chart):
+    """put the chart into a state other producers write and the library's own writer never does: series whose c:idx
+    and c:order were permuted (re-ordered in 'Select Data'), the 1904 date system"""
+    cs = chart._chartSpace
+    sers = cs.xpath("//c:ser")
+    what = rng.choice(["permute", "permute", "date1904", "both", "combo", "combo"])
+    if what == "combo":
+        from harness.props.c08 import make_combo
+        if make_combo(rng, chart):
+            ctx.count("foreign-state-combination-chart")
+        return
+    if what in ("permute", "both") and len(sers) > 1:
+        for tag in ("c:idx", "c:order"):
+            els = [x.xpath("./" + tag)[0] for x in sers]
+            vals = [e.get("val") for e in els]
+            k = rng.randrange(1, len(vals))
+            vals = vals[k:] + vals[:k] if rng.random() < 0.7 else rng.sample(vals, len(vals))
+            if rng.random() < 0.3:
+                vals = [str(int(v) * 2 + (3 if i == 0 else 0)) for i, v in enumerate(vals)]   # gaps, highest not last
+            for e, v in zip(els, vals):
+                e.set("val", v)
+        ctx.count("foreign-state-permuted-idx-order")
+    if what in ("date1904", "both"):
+        d = cs.xpath("./c:date1904")
+        if d:
+            d[0].set("val", "1")
+            ctx.count("foreign-state-date1904")
+
+
+def grow_same_object(rng, spec, cd):
+    """grow `cd` (and `spec` with it) in place; False when this data cannot be grown this way"""
+    if spec["kind"] == "multi":
+        cands = []
+
+        def walk(nodes, cats):
+            for (lb, subs), c in zip(nodes, cats):
+                if subs and all(not ss for _, ss in subs):
+                    cands.append((subs, c))
+                elif subs:
+                    walk(subs, list(c.sub_categories))
+
+        walk(spec["tree"], list(cd.categories))
+        if not cands:
+            return False
+        subs, c = cands[rng.randrange(len(cands))]
+        lb = "new%d" % rng.randint(0, 99)
+        c.add_sub_category(lb)
+        subs.append((lb, []))
+        spec["cats"] = lab.leaves(spec["tree"])
+    elif spec["kind"] == "str":
+        lb = "more%d" % rng.randint(0, 99)
+        cd.add_category(lb)
+        spec["cats"] = list(spec["cats"]) + [lb]
+    else:
+        return False
+    sd = list(cd)
+    for (name, vals), ser in zip(spec["series"], sd):
+        v = rng.randint(0, 99)
+        ser.add_data_point(v)
+        vals.append(v)
+    return True
 
 
 def correspond(ctx):
@@ -169,6 +234,19 @@ def correspond(ctx):
                         marks.append(s._element)
                     except Exception:  # noqa
                         pass
+                if rng.random() < 0.3:
+                    foreign_state(ctx, rng, chart)
+                if kind == "cat" and r == 0 and rng.random() < 0.35 and spec["series"]:
+                    # the SAME chart-data object used again after it has grown (a sub-category under an existing
+                    # branch, or one more category; one more value in each series)
+                    if grow_same_object(rng, spec, cd):
+                        try:
+                            chart.replace_data(cd)
+                        except Exception as e:  # noqa
+                            ctx.fail("replace-data-raises:" + ct.name, f"{ct.name}: replace_data with the grown chart-data object raised {type(e).__name__}: {str(e)[:150]}", {"chart_type": ct.name, "data": str(spec)[:400]})
+                            break
+                        ctx.count("replace_data-same-object-grown")
+                        check_chart(ctx, chart, spec, ct, "reuse-grown", lines, impl, metas)
                 other_xml = [x for x in lab.chart_xml(chart).xpath("//c:legend | //c:title | //c:valAx/c:majorGridlines", namespaces=lab.NS)]
                 if kind == "cat":
                     spec2, cd2 = lab.gen_cat_data(rng, n_series=rng.choice([1, 2, 4]))
